@@ -1519,16 +1519,44 @@ class SX:
             return None
         p = fn.inst_of(g.ops[0])
         st_ = g.d['gep']['steps']
-        if p is None or p.op != 'phi' or p.block is not H or len(st_) != 1 or st_[0]['stride'] != 1 or \
-                st_[0]['v'].get('v') != -1:
-            return None
-        pinit = None
-        for (bb, v) in p.incoming:
-            if bb == latch.name:
-                if v.key() != ('i', g.id):
-                    return None
-            else:
-                pinit = v
+        idx = None
+        if p is not None and p.op == 'phi' and p.block is H:
+            # pointer form  *--p = c
+            if len(st_) != 1 or st_[0]['stride'] != 1 or st_[0]['v'].get('v') != -1:
+                return None
+            pinit = None
+            for (bb, v) in p.incoming:
+                if bb == latch.name:
+                    if v.key() != ('i', g.id):
+                        return None
+                else:
+                    pinit = v
+        else:
+            # index form  pos -= 1; buf[pos] = c   with a loop-invariant base
+            if p is not None and p.block in L['blocks']:
+                return None
+            if not st_ or st_[-1]['k'] != 'index' or st_[-1]['stride'] != 1 or st_[-1]['v'].get('k') != 'inst':
+                return None
+            if any(x['k'] == 'index' and x['v'].get('k') != 'ci' for x in st_[:-1]):
+                return None
+            cast = None
+            dec = fn.insts[st_[-1]['v']['id']]
+            if dec.op in ('sext', 'zext'):
+                cast, dec = dec, fn.inst_of(dec.ops[0])
+            if dec is None or dec.ops[1].k != 'ci' or (dec.op, dec.ops[1].ival) not in (('add', -1), ('sub', 1)):
+                return None
+            pos = fn.inst_of(dec.ops[0])
+            if pos is None or pos.op != 'phi' or pos.block is not H:
+                return None
+            pinit = None
+            for (bb, v) in pos.incoming:
+                if bb == latch.name:
+                    if v.key() != ('i', dec.id):
+                        return None
+                else:
+                    pinit = v
+            idx = {'pos': pos, 'dec': dec, 'cast': cast}
+            p = pos
         (eb, et) = L['exits'][0]
         t = eb.term
         if t.op != 'br' or 'f' not in t.d or t.ops[0].k != 'inst':
@@ -1550,7 +1578,7 @@ class SX:
         else:
             return None
         return {'kind': 'digits', 'u': u, 'uinit': uinit, 'div': div, 'rem': rem, 'store': sto, 'gep': g, 'p': p,
-                'pinit': pinit, 'divisor': dv, 'form': form, 'exit': et, 'exit_from': eb}
+                'pinit': pinit, 'divisor': dv, 'form': form, 'exit': et, 'exit_from': eb, 'idx': idx}
 
     def run_loop(self, fn, L, st, frm, rets):
         info = self.classify(fn, L)
@@ -1683,6 +1711,18 @@ class SX:
         p0 = inits.get(info['p'].id)
         u0 = inits.get(info['u'].id)
         d = self.val(st, info['divisor'], fn)
+        ix = info.get('idx')
+        pos0 = None
+        if ix is not None:
+            # index form: the address written in the first pass is base[pos0 - 1]; p0 is the address of base[pos0]
+            pos0 = p0
+            if not isinstance(pos0, Lin):
+                raise AnalysisBroken('c06_sx: digit loop of %s is indexed by a value that is not tracked' % fn.name)
+            t = st.fork()
+            t.env[('i', ix['dec'].id)] = pos0
+            if ix['cast'] is not None:
+                t.env[('i', ix['cast'].id)] = pos0
+            p0 = self.gep(t, self.val(t, info['gep'].ops[0], fn), info['gep'].d['gep'], fn)
         if not isinstance(p0, P):
             raise AnalysisBroken('c06_sx: digit loop of %s does not write through a tracked pointer' % fn.name)
         nd = Lin.sym(self.opq('ndigits', fn.name, H.name))
@@ -1713,7 +1753,13 @@ class SX:
             self.oblige('digit-store', fn, 'lowest digit position >= 0', ok, info['store'].where(),
                         None if ok else 'the digit loop stores up to %d characters below offset %r of its buffer' % (maxd, p0.off))
             s.env[('i', info['gep'].id)] = P(p0.base, p0.off - nd)
-            s.env[('i', info['p'].id)] = P(p0.base, p0.off - nd + 1)
+            if ix is None:
+                s.env[('i', info['p'].id)] = P(p0.base, p0.off - nd + 1)
+            else:
+                s.env[('i', ix['pos'].id)] = pos0 - nd + 1
+                s.env[('i', ix['dec'].id)] = pos0 - nd
+                if ix['cast'] is not None:
+                    s.env[('i', ix['cast'].id)] = pos0 - nd
             s.env[('i', info['div'].id)] = Lin(0)
             s.env[('i', info['u'].id)] = Lin.sym(self.opq('ulast', fn.name, H.name))
             s.notes = s.notes + (('digits', fn.name, p0, nd, u0 if isinstance(u0, Lin) else None,
@@ -1725,12 +1771,13 @@ class SX:
         """one symbolic pass through the body of the digit loop: which character is stored for which remainder"""
         if self.recording:
             return
+        inits_pos = self.phi_init(fn, L['header'], st, frm).get(info['p'].id) if info.get('idx') is not None else None
         h = st.fork()
         for ph in [i for i in L['header'].insts if i.op == 'phi']:
             if ph.id == info['u'].id:
                 h.env[('i', ph.id)] = Lin.sym(self.opq('uprobe', fn.name))
             elif ph.id == info['p'].id:
-                h.env[('i', ph.id)] = p0
+                h.env[('i', ph.id)] = p0 if info.get('idx') is None else inits_pos
             else:
                 h.env[('i', ph.id)] = self.top(ph, fn)
         log, self.store_log = self.store_log, []
